@@ -234,7 +234,7 @@ def _reparse_raw_stmtlike(self: fst.FST, new_lines: list[str], ln: int, col: int
         _reparse_raw_base(stmtlike, new_lines, ln, col, end_ln, end_col, copy_lines, path, True, None,
                           first_lineno, first_line_col_delta)
 
-        if is_elif:  # nuking a whole elif will parse but can do bad things to end positions
+        if is_elif or getattr(a := stmtlike.a, 'end_col_offset', None) is not None:  # nuking a whole elif will parse but can do bad things to end positions, likewise if new source ends in trailing whitespace which was offset into parents which end at this statement
             stmtlike._set_end_pos((a := stmtlike.a).end_lineno, a.end_col_offset)  # setting own position to what it currently is but will also propagate up the tree
 
         return True
